@@ -703,6 +703,13 @@ class FortranGen:
                 self.exact.add("<state>s")
                 sc.state0["s"] = float(self.pick(SMALL, "s0"))
                 self.pers_real.append("<state>s")
+                if t.chance(0.4, "state_S"):
+                    # a second persistent scalar whose name differs in case only: both compete for one
+                    # (case-insensitive) Fortran identifier
+                    self.types["<state>S"] = "real"
+                    self.exact.add("<state>S")
+                    sc.state0["S"] = float(self.pick(SMALL, "S0"))
+                    self.pers_real.append("<state>S")
             if t.chance(0.8, "state_r"):
                 self.types["<state>r"] = "real"
                 sc.state0["r"] = float(self.pick(SMALL + [1e-05, -3.0], "r0"))
@@ -854,17 +861,22 @@ def module_preamble(sc):
         """ % na
 
 
-def user_type_map(sc):
+def user_type_map(sc, default_index=False):
+    """default_index: let ArrayType name its index variables itself (from its class-wide counter, at
+    construction); the type objects are then part of the description and must be made once."""
     import dagrt.codegen.fortran as f
+
+    def iv(name):
+        return {} if default_index else {"index_vars": name}
     if getattr(sc, "struct", None):
         na, nb = sc.struct
         m = {"y": f.StructureType("ytype", (
-            ("a", f.ArrayType((na,), f.BuiltinType("real*8"), index_vars="iv")),
-            ("b", f.PointerType(f.ArrayType((nb,), f.BuiltinType("real*8"), index_vars="kw")))))}
+            ("a", f.ArrayType((na,), f.BuiltinType("real*8"), **iv("iv"))),
+            ("b", f.PointerType(f.ArrayType((nb,), f.BuiltinType("real*8"), **iv("kw"))))))}
     else:
-        m = {"y": f.ArrayType((sc.N,), f.BuiltinType("real*8"), index_vars="iv")}
+        m = {"y": f.ArrayType((sc.N,), f.BuiltinType("real*8"), **iv("iv"))}
     if getattr(sc, "has_v", False):
-        m["v"] = f.ArrayType((sc.M,), f.BuiltinType("real*8"), index_vars="jv")
+        m["v"] = f.ArrayType((sc.M,), f.BuiltinType("real*8"), **iv("jv"))
     return m
 
 
